@@ -743,7 +743,7 @@ Fixpoint loop_chars (st : state) (env : loc) (x : str) (cs : list value) (body :
     end
   end.
 
-Definition for_sem (st : state) (env : loc) (xs : list str) (coll body : expr) (what : Z) : state * outcome :=
+Definition for_core (st : state) (env : loc) (xs : list str) (coll body : expr) (what : Z) : state * outcome :=
   let '(st1, o) := ev st env coll in
   match operand o with
   | inr bad => (st1, bad)
@@ -763,6 +763,16 @@ Definition for_sem (st : state) (env : loc) (xs : list str) (coll body : expr) (
       else (st3, r)
     end
   end.
+
+(* NodeFor.evaluate around evaluateLoop: a loop left by an error removes its loop variables; a binding the enclosing
+   frame had for a loop variable before the loop is put back afterwards, however the loop ends *)
+Definition frame_get (st : state) (env : loc) (x : str) : option value :=
+  match rd st env with Some (CFrame bs _) => assoc_get x bs | _ => None end.
+Definition is_exception (o : outcome) : bool := match o with OErr _ | OHostX _ => true | _ => false end.
+Definition for_sem (st : state) (env : loc) (xs : list str) (coll body : expr) (what : Z) : state * outcome :=
+  let '(st1, r) := for_core st env xs coll body what in
+  let st2 := if is_exception r then fold_left (fun s x => env_remove s env x) xs st1 else st1 in
+  (fold_left (fun s x => match frame_get st env x with Some v => env_put s env x v | None => s end) xs st2, r).
 
 (* ---- NodeWhile ---- *)
 Fixpoint while_sem (n : nat) (st : state) (env : loc) (c body : expr) (result : value) : state * outcome :=
@@ -963,20 +973,21 @@ Fixpoint comp_loop (st : state) (lenv : loc) (x : str) (items : list value) (v :
   | [] => (st, inl acc)
   | it :: t =>
     let st0 := env_put st lenv x it in
-    let '(st1, o) := ev st0 lenv v in
-    match operand o with
-    | inr bad => (st1, inr bad)
-    | inl val =>
-      match cond with
-      | None => comp_loop st1 lenv x t v cond (acc ++ [val])
-      | Some c =>
-        let '(st2, oc) := ev st1 lenv c in
-        match operand oc with
-        | inr bad => (st2, inr bad)
-        | inl (VBool true) => comp_loop st2 lenv x t v cond (acc ++ [val])
-        | inl (VBool false) => comp_loop st2 lenv x t v cond acc
-        | inl _ => (st2, inr oerr)
-        end
+    let value_then (stc : state) :=
+      let '(st1, o) := ev stc lenv v in
+      match operand o with
+      | inr bad => (st1, inr bad)
+      | inl val => comp_loop st1 lenv x t v cond (acc ++ [val])
+      end in
+    match cond with
+    | None => value_then st0
+    | Some c =>
+      let '(st2, oc) := ev st0 lenv c in
+      match operand oc with
+      | inr bad => (st2, inr bad)
+      | inl (VBool true) => value_then st2
+      | inl (VBool false) => comp_loop st2 lenv x t v cond acc
+      | inl _ => (st2, inr oerr)
       end
     end
   end.
